@@ -173,6 +173,12 @@ def try_break_blocks(body):
             tt = body.blocks[nb]['term']
             if tt['k'] == 'switch':
                 out.add(C.switch_edge_blocks(body, nb, 1))
+    # the hand-written form of `?`: `match r { Ok(v) => .., Err(e) => return Err(..) }` - blocks that build the Err return value
+    for bb in body.normal_blocks():
+        for s in body.blocks[bb]['stmts']:
+            if s['k'] == 'assign' and s['place']['l'] == 0 and not s['place']['p'] and s['rv']['k'] == 'agg' and \
+                    (s['rv'].get('adt') or '').endswith('result::Result') and s['rv'].get('variant') == 'Err':
+                out.add(bb)
     return out
 
 
